@@ -185,6 +185,7 @@ fn budget(prop: &str, tier: &str, seed: u64, scale: f64) -> Budget {
             sweeps.push(sweeps::c08_single_pixel(seed, if quick || !checked { 1 } else { 16 }));
             sweeps.push(sweeps::small_geometry("C08", if quick { 330 } else if checked { 1300 } else { 600 }, if quick { 40 } else { 150 }));
             sweeps.push(sweeps::c08_track_faults(seed));
+            sweeps.push(sweeps::c08_periodic_fixed_faults(seed));
             sweeps.push(sweeps::dimension_aliases("C08", seed));
         }
         _ => {
